@@ -83,6 +83,17 @@ class C14Monitor:
 
 
 def run_case(ctx, i, rng):
+    if i % 10 == 9:
+        # refusals across naming policies: an orphan subtree built under one policy is offered to a parent under the other one
+        from . import c10
+        try:
+            for _ in range(10):
+                c10.cross_policy_case(ctx, i, rng, judge="C14")
+                c10.to_default_case(ctx, i, rng, judge="C14")
+            ctx.fingerprint(("cross-policy-refusals", i), True)
+        finally:
+            sdn.namespace_manager.default = "DEFAULT"
+        return
     policy = "EDIF" if i % 2 else "DEFAULT"
     sdn.namespace_manager.default = policy
     try:
